@@ -19,7 +19,7 @@ PROPS = {
     "C08": {"level": "exploration", "parts": [P("main", "c08", run="^TestC08$"), P("race", "c08", race=True, run="^TestC08Race$")]},
     "C07": {"level": "exploration", "parts": [P("race", "c07", race=True, run="^TestC07$")]},
     "C04": {"level": "exploration", "parts": [P("main", "c04", run="^TestC04$")]},
-    "C06": {"level": "fault_enumeration", "parts": [P("main", "c06", run="^TestC06$")]},
+    "C06": {"level": "fault_enumeration", "parts": [P("main", "c06", run="^TestC06$"), P("race", "c06", race=True, run="^TestC06Race$")]},
     "C13": {"level": "exploration", "parts": [P("main", "c13", run="^TestC13$"), P("hooks", "c13", run="^TestC13Hooks$"), P("race", "c13", race=True, run="^TestC13Race$")]},
     "C15": {"level": "exploration", "parts": [P("main", "c15", run="^TestC15$")]},
     "C19": {"level": "exploration", "parts": [P("main", "c19", run="^TestC19$")]},
